@@ -2740,7 +2740,8 @@ def groupby_reduce(
     if axis is None:
         axis_ = tuple(array.ndim + np.arange(-by_.ndim, 0))
     else:
-        axis_ = normalize_axis_tuple(axis, array.ndim)
+        # an axis tuple is a set of axes: the stages below rely on ascending order (the last entry is the last reduced axis)
+        axis_ = tuple(sorted(normalize_axis_tuple(axis, array.ndim)))
         if any(ax < array.ndim - by_.ndim for ax in axis_):
             raise ValueError(
                 "Can only reduce along dimensions of `array` that `by` is aligned with: "
